@@ -207,6 +207,7 @@ PROGRAMMES = {
     # programmes that DIVERGE at one grid time in the middle of a run (ordinary temperatures before and after): +inf at t = 2 h
     "log_sing2": ("logarithmic", [-100.0, 0.14753266960496006, -0.14753266960496006, 0.036883167401240015]),  # T = -100 ln(k (t - 2)^2)
     "exp_overflow": ("exponential", [330.0, 0.0, -800.0, 800.0]),  # 330 K at t = 0 and 1 h, overflow from t = 2 h on
+    "poly_to_1K": ("polynomial", [333.15, -332.0, 83.0]),  # 333.15, 84.15, 1.15, 84.15 K at t = 0..3 h: positive throughout, fluxes underflow to 0 at 1 K
     "log_t0": ("logarithmic", [40.0, 0.0, 5962.0]),  # -inf at t = 0, about 320 K at t = 0.5 h: only the STATED initial temperature is valid at step 0
 }
 
